@@ -56,4 +56,5 @@ package wkbcommon
 // constructor returns such a closure); calls through them are not modelled
 //@ func InitWKBParams
 //@   trusted
+//@   ensures [no-options] len(opts) == 0 ==> res.EmptyPointHandling == params.EmptyPointHandling
 //@   modifies nothing
